@@ -7,6 +7,8 @@
 //!   decimal code points joined by ','; `-` is the empty string; `~` is "no prefix".
 //! All expressions of one case are evaluated against ONE shared `Context` (C19); the
 //! probes `position()`/`last()` of that context are reported after each query.
+//! An "expression" that starts with `#` is a control word for that context: `#bind <prefix|~> <uri>`
+//! (Context::add_ns) or `#unbind <prefix|~>` (Context::remove_ns); it answers `A X` / `R ctl`.
 //!
 //! output line (sections separated by " # "):
 //!   `D <n> <node>*n`            the document as the evaluator can observe it (XDoc table)
@@ -516,6 +518,22 @@ fn show_err(e: &xml_xpath::eval::error::Error) -> String {
 
 // ------------------------------------------------------------------------------------ a case
 
+/// `#bind p uri` / `#unbind p` (prefix `~` = the default binding): applied to the shared context
+fn control(e: &str, ctx: &mut Context) -> bool {
+    let w: Vec<&str> = e[1..].split(' ').filter(|s| !s.is_empty()).collect();
+    match w.as_slice() {
+        ["bind", p, u] => {
+            ctx.add_ns(if *p == "~" { None } else { Some(p) }, u);
+            true
+        }
+        ["unbind", p] => {
+            ctx.remove_ns(if *p == "~" { None } else { Some(p) });
+            true
+        }
+        _ => false,
+    }
+}
+
 pub fn case(line: &str) -> String {
     let w: Vec<&str> = line.split(' ').filter(|s| !s.is_empty()).collect();
     if w.len() < 3 {
@@ -586,6 +604,11 @@ pub fn case(line: &str) -> String {
                 }
                 let mut vals: Vec<Cold> = vec![];
                 for e in &exprs {
+                    if e.starts_with('#') {
+                        control(e, &mut ctx2);
+                        vals.push(Cold::Txt("ctl".to_string()));
+                        continue;
+                    }
                     let r = catch_unwind(AssertUnwindSafe(|| match xml_xpath::query(doc2.clone(), e, &mut ctx2) {
                         Ok(v) => Cold::Val(v),
                         Err(xml_xpath::error::Error::Eval(x)) => Cold::Txt(show_err(&x)),
@@ -612,6 +635,14 @@ pub fn case(line: &str) -> String {
     let mut asts = vec![];
     let mut results = vec![];
     for e in &exprs {
+        if e.starts_with('#') {
+            if !dump_only {
+                control(e, &mut ctx);
+                results.push(format!("R ctl P{},{}", ctx.get_position(), ctx.get_size()));
+            }
+            asts.push("A X".to_string());
+            continue;
+        }
         if dump_only {
             match catch_unwind(AssertUnwindSafe(|| match xml_xpath::expr::parse(e) {
                 Ok((rest, q)) if rest.is_empty() => Some(dump_ast(&q)),
